@@ -29,6 +29,11 @@ case "$1" in
   build) build || { echo "HARNESS-TROUBLE: build failed"; exit 2; }; build_race || { echo "HARNESS-TROUBLE: race build failed"; exit 2; }; exit 0;;
   replay) build || { echo "HARNESS-TROUBLE: build failed"; exit 2; }
       if grep -q '"race": true' "$2" 2>/dev/null; then build_race || { echo "HARNESS-TROUBLE: race build failed"; exit 2; }; fi
+      # replay files of the package-main drivers need the driver binary of the current tree
+      if grep -q '"driver": true' "$2" 2>/dev/null; then
+        dp=$(grep -o '"property": *"C[0-9]*"' "$2" | head -1 | grep -o 'C[0-9]*')
+        ./drivers/run_driver.sh "$dp" build || { echo "HARNESS-TROUBLE: driver build failed"; exit 2; }
+      fi
       exec ./bin/simcheck replay "$2";;
   selftest) build || { echo "HARNESS-TROUBLE: build failed"; exit 2; }; shift; exec ./bin/simcheck selftest "$@";;
   C19|C20) build || { echo "HARNESS-TROUBLE: build failed"; exit 2; }; exec ./drivers/run_driver.sh "$1" "${2:-quick}";;
